@@ -8,6 +8,7 @@
 """
 from __future__ import annotations
 
+import asyncio
 import itertools
 
 from ..common import B, Ctx
@@ -145,12 +146,19 @@ def end_to_end(ctx: Ctx):
         data = plan.get("prefix", b"") + b"".join(packets)
         cuts = plan["cuts"](len(data))
         prev = 0
+        # one in-order stream per connection: the answer to a retransmission never overtakes the bytes of the first answer
+        base = max(loop.time(), plan.get("busy_until", 0.0))
         t = 0.0
-        for c in list(cuts) + [len(data)]:
+        for k, c in enumerate(list(cuts) + [len(data)]):
             t += 0.01
-            loop.call_later(t, tr.feed, data[prev:c])
+            if plan.get("gap") is not None and k == plan["gap"] and k > 0:
+                t += 2.5                       # the rest of the packet arrives only after the client's 2 s read timeout has fired
+            loop.call_at(base + t, tr.feed, data[prev:c])
             prev = c
-        plan["t_last"] = loop.time() + t
+        plan["busy_until"] = base + t
+        if plan.get("t_last_pending", True):
+            plan["t_last"] = base + t          # the instant the last byte of the FIRST answer of this exchange arrives
+            plan["t_last_pending"] = False
         plan["first_end"] = None
     dev.respond = respond
 
@@ -193,14 +201,26 @@ def end_to_end(ctx: Ctx):
             else:
                 plan["cuts"] = lambda L: ()
             plan["prefix"] = rng.choice([b"", b"", b"\x00\x70", b"\x83"])
+            slow = (k % 10 == 9)               # a gap longer than the read timeout inside the answer: the library retransmits meanwhile
+            plan["gap"] = 1 if slow and kind != 3 else None
+            plan["t_last_pending"] = True
             t0 = loop.time()
             try:
-                r = await l.send(f, retries=1)
+                r = await l.send(f, retries=3 if plan["gap"] is not None else 1)
                 ok = (r == [f])
                 exc = None
             except Exception as e:  # noqa: BLE001
                 ok, exc, r = False, type(e).__name__, None
             t1 = loop.time()
+            if plan["gap"] is not None:
+                # the answers to the retransmissions are still on their way: start the next exchange on a fresh connection
+                plan["gap"] = None
+                await asyncio.sleep(6)
+                if l._protocol:
+                    l._disconnect()
+                plan["busy_until"] = 0.0
+                if not await auth(l):
+                    return
             n += 1
             if not ok or abs(t1 - plan["t_last"]) > 1e-9:
                 bad.append({"frame": f.hex(), "exc": exc, "returned_at": t1 - t0, "last_byte_at": plan["t_last"] - t0, "prefix": plan["prefix"].hex(),
